@@ -10,6 +10,7 @@ import (
 	"sort"
 	"strconv"
 	"strings"
+	"time"
 
 	abci "github.com/cometbft/cometbft/abci/types"
 	sdk "github.com/cosmos/cosmos-sdk/types"
@@ -70,6 +71,7 @@ type Engine struct {
 	LightQueries bool // run scalar queries after each tx
 	NoDumpCheck  bool
 	NoModeTwin   bool // do not run each transaction in simulation mode first
+	NoPositionTwin bool
 	RecordBlocks bool // keep the bytes and results of every delivered block (block-partition replays)
 	BlockLog     [][][]byte
 	ResLog       []chain.TxResult
@@ -89,7 +91,38 @@ type Engine struct {
 }
 
 // NewEngine builds a chain from cfg and the matching model.
+// headerStyles: what a block carries besides its transactions. None of it may influence the module, so every
+// engine gets one of these in turn and all oracles stay as they are.
+func headerStyle(cfg *chain.Config, style int) {
+	switch style % 4 {
+	case 0: // height from 1, zero time, no proposer
+	case 1:
+		cfg.Header = func(req *abci.RequestFinalizeBlock) {
+			req.Time = time.Date(2026, 10, 2, 15, 27, 0, 0, time.UTC).Add(time.Duration(req.Height) * 6 * time.Second)
+			req.ProposerAddress = bytes.Repeat([]byte{byte(req.Height)}, 20)
+			req.Hash = bytes.Repeat([]byte{byte(req.Height >> 2)}, 32)
+		}
+	case 2:
+		cfg.InitialHeight = 7_000_001
+		cfg.Header = func(req *abci.RequestFinalizeBlock) {
+			req.Time = time.Date(2031, 1, 1, 0, 0, 0, 0, time.UTC).Add(time.Duration(req.Height-7_000_000) * time.Hour)
+			req.ProposerAddress = bytes.Repeat([]byte{0xee}, 20)
+		}
+	case 3:
+		cfg.InitialHeight = 1 << 40
+		cfg.Header = func(req *abci.RequestFinalizeBlock) {
+			req.Time = time.Unix(1<<33+req.Height%1000, 999_999_999).UTC()
+			req.ProposerAddress = bytes.Repeat([]byte{byte(req.Height % 7)}, 32)
+		}
+	}
+}
+
 func NewEngine(rc *RunCtx, cfg chain.Config) (*Engine, error) {
+	if cfg.Header == nil && cfg.InitialHeight == 0 && cfg.DB == nil {
+		headerStyle(&cfg, int(rc.Seed)+rc.engines)
+		rc.Cov.Cell("block_header_styles", fmt.Sprint((int(rc.Seed)+rc.engines)%4))
+		rc.engines++
+	}
 	c, err := chain.New(cfg)
 	if err != nil {
 		return nil, err
@@ -166,13 +199,13 @@ func kindFailProps(kind string) []string {
 	p := []string{"C15"}
 	switch kind {
 	case "ReceiveMessage":
-		p = append(p, "C03", "C14", "C02")
+		p = append(p, "C03", "C14", "C02", "C04", "C12")
 	case "DepositForBurn", "DepositForBurnWithCaller":
-		p = append(p, "C14", "C05")
+		p = append(p, "C14", "C05", "C08", "C06", "C07", "C12")
 	case "ReplaceMessage", "ReplaceDepositForBurn":
-		p = append(p, "C09")
+		p = append(p, "C09", "C06", "C12")
 	case "SendMessage", "SendMessageWithCaller":
-		p = append(p, "C07")
+		p = append(p, "C07", "C06", "C12")
 	case "EnableAttester", "DisableAttester", "UpdateSignatureThreshold":
 		p = append(p, "C10", "C13")
 	default:
@@ -245,6 +278,39 @@ func (e *Engine) Exec(tx Tx) *Report {
 		}
 		if sres != nil {
 			simEvents = cctpEventStrings(sres.Events)
+		}
+	}
+	// ---- position twin: the same messages behind / in front of a message that changes nothing (the owner sets the
+	// max body size to the value it has), again in simulation mode: outcome and events must not depend on the place
+	// of a message inside its transaction
+	posDone, posOK, posFront := false, false, e.TxCount%2 == 0
+	var posEvents []string
+	var posLog string
+	if simDone && !e.NoPositionTwin && e.M.HasMaxBody && validAddr(e.M.Owner) && e.M.Owner == strings.ToLower(e.M.Owner) && len(tx.Msgs) < 6 {
+		pad := &ct.MsgUpdateMaxMessageBodySize{From: e.M.Owner, MessageSize: e.M.MaxBody}
+		var msgs []sdk.Msg
+		if posFront {
+			msgs = append([]sdk.Msg{pad}, tx.Msgs...)
+		} else {
+			msgs = append(append([]sdk.Msg{}, tx.Msgs...), pad)
+		}
+		if pb, perr := e.C.BuildTx(msgs...); perr == nil {
+			rc.LogCall("SIMULATE-POSITION-TWIN front=%v", posFront)
+			_, sres, serr := e.C.App.Simulate(pb)
+			rc.LogCall("DONE")
+			posDone, posOK = true, serr == nil
+			if serr != nil {
+				posLog = serr.Error()
+			}
+			if sres != nil {
+				padIdx := len(tx.Msgs)
+				if posFront {
+					padIdx = 0
+				}
+				posEvents = shiftedEventStrings(sres.Events, padIdx)
+			}
+			e.C.Store.Reset()
+			e.C.Deps.Reset()
 		}
 	}
 	e.C.Store.Phase = "tx"
@@ -340,6 +406,35 @@ func (e *Engine) Exec(tx Tx) *Report {
 				e.viol(props, "mode-twin", "mode-divergence-events:"+kindStr,
 					fmt.Sprintf("simulation and delivery of the same transaction emitted different module events:\nsimulate: %v\ndeliver:  %v", simEvents, d), e.caseOf(&tx, ""))
 			}
+		}
+	}
+
+	if posDone && simDone {
+		rc.Cov.Assert("position-twin.padded-equals-plain")
+		props := []string{}
+		for _, ex := range rep.Exp {
+			for _, p := range kindFailProps(ex.Kind) {
+				props = addProp(props, p)
+			}
+		}
+		where := map[bool]string{true: "behind", false: "in front of"}[posFront]
+		if posOK != simOK {
+			// is the padding message itself acceptable in this state? (lazy: only on a mismatch)
+			padAlone := false
+			if pb, perr := e.C.BuildTx(&ct.MsgUpdateMaxMessageBodySize{From: e.M.Owner, MessageSize: e.M.MaxBody}); perr == nil && rep.OK == simOK {
+				_, _, serr := e.C.App.Simulate(pb)
+				padAlone = serr == nil
+				e.C.Store.Reset()
+				e.C.Deps.Reset()
+			}
+			if padAlone {
+				e.viol(props, "position-twin", fmt.Sprintf("position-divergence:%s:alone=%v:padded=%v", kindStr, simOK, posOK),
+					fmt.Sprintf("the messages %s on their own but %s when placed %s a message that changes nothing (alone: %s; padded: %s)",
+						okWord(simOK), okWord(posOK), where, trunc(simLog, 300), trunc(posLog, 300)), e.caseOf(&tx, ""))
+			}
+		} else if simOK && strings.Join(posEvents, "\n") != strings.Join(simEvents, "\n") {
+			e.viol(props, "position-twin", "position-divergence-events:"+kindStr,
+				fmt.Sprintf("the messages emit different module events when placed %s a message that changes nothing:\nalone:  %v\npadded: %v", where, simEvents, posEvents), e.caseOf(&tx, ""))
 		}
 	}
 
@@ -1360,6 +1455,33 @@ func (e *Engine) checkSuccessImplies(tx *Tx, rep *Report) {
 		e.viol([]string{"C14", "C05"}, "all-or-nothing", "C14:deposit-success-without-effects",
 			fmt.Sprintf("%d deposit(s) reported success with %d ok transfers, %d ok burns and %d module-sent MessageSent events", deposits, okCalls["Transfer"], okCalls["Burn"], moduleSent), e.caseOf(tx, ""))
 	}
+	// a burn is backed by the coins just pulled from a depositor: same denom as spelled, same amount
+	if deposits > 0 {
+		var pulled []chain.DepCall
+		for _, d := range rep.Deps {
+			if d.Seq < 0 || d.Err != "" {
+				continue
+			}
+			switch d.Method {
+			case "Transfer":
+				pulled = append(pulled, d)
+			case "Burn":
+				e.Rc.Cov.Assert("C05.burn-backed-by-transfer")
+				ok := false
+				for i, t := range pulled {
+					if t.Denom == d.Denom && t.Amount != nil && d.Amount != nil && t.Amount.Cmp(d.Amount) == 0 {
+						pulled = append(pulled[:i], pulled[i+1:]...)
+						ok = true
+						break
+					}
+				}
+				if !ok {
+					e.viol([]string{"C05"}, "backed-burn", "C05:burn-not-backed-by-transfer",
+						fmt.Sprintf("the module asked to burn %s%s, which is not what a depositor was debited in this transaction: %s", d.Amount, d.Denom, depSummary(rep.Deps)), e.caseOf(tx, ""))
+				}
+			}
+		}
+	}
 	if okCalls["Mint"] < moduleReceives {
 		e.viol([]string{"C14", "C04"}, "all-or-nothing", "C14:receive-success-without-mint",
 			fmt.Sprintf("%d module-addressed receive(s) reported success with %d ok mints", moduleReceives, okCalls["Mint"]), e.caseOf(tx, ""))
@@ -1440,6 +1562,38 @@ func cctpEventStrings(evs []abci.Event) []string {
 		s := ev.Type
 		for _, a := range ev.Attributes {
 			s += " " + a.Key + "=" + a.Value
+		}
+		out = append(out, s)
+	}
+	return out
+}
+
+// shiftedEventStrings: module events of a padded execution with the padding message's own events removed and the
+// msg_index of the others mapped back to what they are without the padding.
+func shiftedEventStrings(evs []abci.Event, padIdx int) []string {
+	var out []string
+	for _, ev := range evs {
+		if !strings.HasPrefix(ev.Type, "circle.cctp.") {
+			continue
+		}
+		idx := -1
+		for _, a := range ev.Attributes {
+			if a.Key == "msg_index" {
+				if v, err := strconv.Atoi(strings.Trim(a.Value, "\"")); err == nil {
+					idx = v
+				}
+			}
+		}
+		if idx == padIdx {
+			continue
+		}
+		s := ev.Type
+		for _, a := range ev.Attributes {
+			v := a.Value
+			if a.Key == "msg_index" && idx > padIdx {
+				v = strconv.Itoa(idx - 1)
+			}
+			s += " " + a.Key + "=" + v
 		}
 		out = append(out, s)
 	}
